@@ -107,3 +107,21 @@ META.update({
         text="Exploration: generated session prefixes after which the client is silent forever, against a broker that enforces the MQTT keep-alive and the missing-CONNECT timeout on the virtual clock; the oracle bounds the time from the client's last packet to the end of the session per state (connecting, active, asleep, woken, reconnected).",
         note=_GW_NOTE + " 'Never' is observed as 'not within the bound plus 3 K + 2 s'.", technique="PBT with a time-enforcing model broker on a virtual clock; bounded-liveness oracle"),
 })
+CHECKS["C06"] = dict(parts=[part("gateway-exchanges-independent", "gw", "TestC06GW", 3000, 200_000)])
+CHECKS["C15"] = dict(parts=[part("sessions-isolated", "gw", "TestC15", 1500, 100_000)])
+CHECKS["C25"] = dict(parts=[part("hostile-client-to-gateway", "gw", "TestC25Client", 3000, 200_000, death_is_violation=True, death_kind="gateway-session-panic/hostile-client"),
+                            part("hostile-broker-to-gateway", "gw", "TestC25Broker", 3000, 200_000, death_is_violation=True, death_kind="gateway-session-panic/hostile-broker")])
+META.update({
+    "C06": dict(
+        text="Exploration: 2-5 concurrently open exchanges of both directions whose message IDs coincide (client pool {1,2,0xFFFE,0xFFFF} against the broker's IDs and the gateway's own REGISTER IDs), with the opening packets and every acknowledgement step played in a drawn order by scripted peers that compute each packet from what they received; oracle: every exchange completes with its own acknowledgement carrying the right IDs. A second part does the same against the client library.",
+        note=_GW_NOTE + " Exchanges of the same direction never share an ID (out of the property's scope); no time passes, so no retry timer interferes.",
+        technique="stateful PBT over interleavings of symbolic exchange steps; oracle = per-exchange completion model"),
+    "C15": dict(
+        text="Exploration (metamorphic): 2-3 sessions built from one shared gateway configuration and predefined map run interleaved in a drawn order, one of them possibly hostile; each session's outgoing bytes (to its client and to its broker connection) must equal those of the same script run alone.",
+        note=_GW_NOTE + " Scripts are constructed so that a lone session is deterministic (no name with two topic IDs, unique predefined names), otherwise map iteration order would differ between runs; no virtual time passes inside a case.",
+        technique="metamorphic PBT: alone-vs-interleaved trace equality"),
+    "C25": dict(
+        text="Exploration: three stateful fuzzers producing only decodable packets -- hostile MQTT-SN client against a gateway session, hostile broker against a gateway session, hostile gateway against the client library with API calls in flight -- with retry delays down to 1 ms, time advances and same-instant injections; oracle: the test process survives every case (session and client goroutines have no recover, so a panic kills it; the driver attributes the death to the case written to disk beforehand and minimises it by delta debugging).",
+        note=_GW_NOTE + " Data-race reports are not C25 violations (no -race build here).",
+        technique="stateful fuzzing (rapid) with process-death detection and ddmin minimisation"),
+})
